@@ -40,7 +40,7 @@ RULE = ("each run builds a chain of 1-4 components (real RateLimiter, AccessCont
 PROBES = ["chain_rejected", "chain_raised", "slow_component", "titan_with_chain",
           "content_arrived_while_chain_undecided", "peer_left_while_chain_undecided",
           "client_cert_presented", "ipv6_peer", "real_handlers", "start_server_assembly",
-          "timer_fired_while_chain_undecided", "flood_1000_pending_requests"]
+          "timer_fired_while_chain_undecided", "flood_1000_pending_requests", "policy_from_toml"]
 COMPONENTS = {
     "real": ["nauyaca.server.protocol", "nauyaca.server.middleware (chain + 3 components)",
              "nauyaca.server.server.start_server chain assembly", "nauyaca.server.tls_protocol",
@@ -267,7 +267,7 @@ def run_one(ch):
         acl_v = ch.choose("ss_acl", 3)
         ca_v = ch.choose("ss_ca", 3) if mode == "pyopenssl" else 0
         rl_cap = ch.pick("ss_rl", [100, 1])
-        state.update(acl_v=acl_v, ca_v=ca_v, rl_cap=rl_cap)
+        state.update(acl_v=acl_v, ca_v=ca_v, rl_cap=rl_cap, via_toml=ch.chance("via_toml", 0.5))
 
     for i in range(nconn):
         info = gen_conn(ch, i, True)
@@ -300,9 +300,33 @@ def run_one(ch):
             cfg = ServerConfig(host=HOST, port=1965, document_root=pathlib.Path(docroot),
                                certfile=pathlib.Path(fx.crt("rsa1")), keyfile=pathlib.Path(fx.key("rsa1")),
                                require_client_cert=(mode == "pyopenssl"))
+            rl = RateLimitConfig(capacity=state["rl_cap"], refill_rate=0.001)
+            if state.get("via_toml"):
+                # the same policy written in a TOML file and read back through ServerConfig,
+                # the way the command line starts the server
+                toml = [f'[server]\nhost = "{HOST}"\nport = 1965\ndocument_root = "{docroot}"\n'
+                        f'certfile = "{fx.crt("rsa1")}"\nkeyfile = "{fx.key("rsa1")}"\n'
+                        f'require_client_cert = {"true" if mode == "pyopenssl" else "false"}\n',
+                        f'[rate_limit]\ncapacity = {state["rl_cap"]}\nrefill_rate = 0.001\n']
+                if state["acl_v"] == 1:
+                    toml.append('[access_control]\ndeny_list = ["10.0.0.0/8"]\n')
+                elif state["acl_v"] == 2:
+                    toml.append('[access_control]\nallow_list = ["192.168.0.0/16", "::1"]\n')
+                if state["ca_v"] == 1:
+                    toml.append('[[certificate_auth.paths]]\nprefix = "/c0"\nrequire_cert = true\n')
+                elif state["ca_v"] == 2:
+                    toml.append('[[certificate_auth.paths]]\nprefix = "/"\nallowed_fingerprints = ["%s"]\n'
+                                % fx.fp("cli_rsa1"))
+                tpath = pathlib.Path(scratch, "server.toml")
+                tpath.write_text("\n".join(toml))
+                cfg = ServerConfig.from_toml(tpath)
+                rl = cfg.get_rate_limit_config()
+                acl = cfg.get_access_control_config()
+                ca = cfg.get_certificate_auth_config()
+                res.stats["policy_from_toml"] += 1
             srv_task = asyncio.ensure_future(start_server(
                 cfg, log_level="CRITICAL", enable_rate_limiting=True,
-                rate_limit_config=RateLimitConfig(capacity=state["rl_cap"], refill_rate=0.001),
+                rate_limit_config=rl,
                 access_control_config=acl, certificate_auth_config=ca))
             await asyncio.sleep(0.001)
             if srv_task.done():
